@@ -25,7 +25,11 @@ META = dict(
          "publickey requests for every (declared, signed-with) pair of the RSA algorithms incl. certificate names, "
          "ECDSA curve substitutions, relabelled ECDSA/Ed25519 signatures, each with and without the signing "
          "algorithm disabled; it must not send USERAUTH_SUCCESS unless the blob names base(declared) and that "
-         "algorithm is enabled. Matching pairs are positive controls (must be accepted, else inconclusive).",
+         "algorithm is enabled. Matching pairs are positive controls (must be accepted, else inconclusive). "
+         "Multi-request stratum: 2-4 publickey requests (queries, valid, mismatching and badly signed ones; same and "
+         "different keys; RSA x3 incl. certificate names, ECDSA curves, Ed25519) on one connection with varying "
+         "disabled sets; every request is judged against a history-free expectation, so state carried from an "
+         "earlier request (e.g. a cached parsed key) that bypasses the enabled-algorithm check is seen.",
     note="Forged signatures are cryptographically valid for the algorithm their blob names, so only the algorithm "
          "binding is under test. Host certificates are presented by a key object whose asbytes() returns the "
          "certificate blob (paramiko's own server never does that).",
@@ -451,6 +455,185 @@ def run_server_case(ctx, c, kex, shape, sample):
         server_case(ctx, desc, D, blob, sign, A, disabled, kex, "direct", sample, positive=positive)
 
 
+# ---- server side, several publickey requests on one connection ------------------------------------------
+def user_key(name):
+    """(paramiko key object, blob as sent, list of algorithm names that are valid for this key)."""
+    if name == "rsaA":
+        k = kexlab.hostkey("ssh-rsa", 1)
+        return k, k.asbytes(), list(RSA)
+    if name == "rsaB":
+        k = kexlab.hostkey("ssh-rsa", 0)
+        return k, k.asbytes(), list(RSA)
+    if name == "rsaCert":
+        k = cert_key("rsa")
+        return k, k.public_blob.key_blob, [x + CERT for x in RSA]
+    if name.startswith("ec"):
+        alg = "ecdsa-sha2-nistp" + name[2:]
+        k = kexlab.hostkey(alg)
+        return k, k.asbytes(), [alg]
+    if name == "ed":
+        k = kexlab.hostkey("ssh-ed25519")
+        return k, k.asbytes(), ["ssh-ed25519"]
+    raise ValueError(name)
+
+
+def expected_grant(req, disabled):
+    """History-free expectation for one request: granted only for a signed request whose signature
+    algorithm is the declared one (cert suffix aside), valid for the key, enabled, and correctly signed
+    (the application approves every key)."""
+    if req["mode"] != "signed":
+        return False
+    _k, _blob, valid = user_key(req["key"])
+    d = req["declared"]
+    return (d in valid and base_alg(d) not in disabled and req["sign_as"] == base_alg(d) and not req.get("bad"))
+
+
+def multi_sequences(ctx):
+    """Request sequences (2-4 requests).  Each request: key, declared algorithm, mode query|signed,
+    sign_as (algorithm really used / named in the blob), bad (signature over other data)."""
+    rng = ctx.rng
+    out = []
+
+    def q(key, d):
+        return dict(key=key, declared=d, mode="query")
+
+    def sg(key, d, sign_as=None, bad=False):
+        return dict(key=key, declared=d, mode="signed", sign_as=sign_as or base_alg(d), bad=bad)
+
+    dsets = [("ssh-rsa",), ("rsa-sha2-256",), ("rsa-sha2-512",), ("ssh-rsa", "rsa-sha2-256"), ("rsa-sha2-256", "rsa-sha2-512")]
+    for dis in dsets:
+        en = [a for a in RSA if a not in dis]
+        for key, sfx in (("rsaA", ""), ("rsaCert", CERT)):
+            for E in en:
+                for X in dis:
+                    out.append((dis, [q(key, E + sfx), sg(key, X + sfx)]))
+                    out.append((dis, [sg(key, E + sfx, bad=True), sg(key, X + sfx)]))
+                    out.append((dis, [q(key, E + sfx), q(key, E + sfx), sg(key, X + sfx, sign_as=E), sg(key, X + sfx)]))
+                # enabled all the way: must be granted whatever came before (positive control)
+                out.append((dis, [q(key, E + sfx), sg(key, E + sfx)]))
+                out.append((dis, [sg(key, E + sfx, bad=True), q(key, E + sfx), sg(key, E + sfx)]))
+        # a different key first
+        out.append((dis, [q("rsaB", en[0]), sg("rsaA", dis[0])]))
+        out.append((dis, [q("ec256", "ecdsa-sha2-nistp256"), sg("rsaA", dis[0])]))
+    for dis in (("ecdsa-sha2-nistp384",), ("ecdsa-sha2-nistp256", "ecdsa-sha2-nistp521"), ("ssh-ed25519",)):
+        for first in ("ec256", "ec384", "ec521", "ed", "rsaA"):
+            _k, _b, valid = user_key(first)
+            d1 = valid[-1]
+            for second in ("ec256", "ec384", "ec521", "ed"):
+                d2 = user_key(second)[2][0]
+                if base_alg(d1) in dis:
+                    continue  # the first request would already end the connection
+                out.append((dis, [q(first, d1), sg(second, d2)]))
+    if not ctx.quick:
+        names = ("rsaA", "rsaB", "rsaCert", "ec256", "ec384", "ed")
+        for _ in range(150):
+            dis = tuple(rng.sample(RSA + ECDSA + ("ssh-ed25519",), rng.randint(1, 3)))
+            seq = []
+            for _i in range(rng.randint(2, 4)):
+                key = rng.choice(names)
+                d = rng.choice(user_key(key)[2])
+                r = rng.random()
+                if r < 0.4:
+                    seq.append(q(key, d))
+                elif r < 0.8 or family(d) != "rsa":
+                    seq.append(sg(key, d, bad=rng.random() < 0.2))
+                else:
+                    seq.append(sg(key, d, sign_as=rng.choice([a for a in RSA if a != base_alg(d)])))
+            out.append((dis, seq))
+    return out
+
+
+def server_multi_case(ctx, disabled, seq, kex, sample):
+    rng = ctx.rng
+    rec = tap.Recorder()
+    srv = pair.LogServer(rec, policy={"check_auth_publickey": AUTH_SUCCESSFUL})
+    fp = ("server-multi", tuple(sorted(disabled)), kex,
+          tuple((r["key"], r["declared"], r["mode"], r.get("sign_as"), bool(r.get("bad"))) for r in seq))
+    desc = dict(side="server", stratum="multi-request", disabled=sorted(disabled), kex=kex, requests=seq)
+    a = attacker.Attacker("client", rng=rng, recorder=rec, victim_server=srv,
+                          victim_kw=dict(disabled_algorithms={"pubkeys": list(disabled)}))
+    a.att.get_security_options().kex = [kex]
+    try:
+        if not a.start(auth=False, timeout=60):
+            ctx.inconclusive("scripted client could not complete the key exchange (multi-request)")
+            return
+        a.takeover()
+        a.send(5, "ssh-userauth")
+        pair.wait_for(lambda: a.wait_inbox(lambda e: e["type"] == 6, 0) or not a.victim.is_active(), 30)
+        if a.wait_inbox(lambda e: e["type"] == 6, 0) is None:
+            ctx.inconclusive("no SERVICE_ACCEPT for the scripted client (multi-request)")
+            return
+        ctx.case(fp, sample=desc if sample else None)
+        ctx.count("server.multi_request_sessions")
+        sid = a.att.session_id
+        seen_keys = set()
+        history = []
+        for i, r in enumerate(seq):
+            if not a.victim.is_active() or a.victim.is_authenticated():
+                break
+            pk, blob, _valid = user_key(r["key"])
+            since = a.mark()
+            try:
+                if r["mode"] == "query":
+                    a.send(50, "u", "ssh-connection", "publickey", False, r["declared"], blob)
+                else:
+                    tosign = (s(sid) + b"\x32" + s("u") + s("ssh-connection") + s("publickey") + b"\x01"
+                              + s(r["declared"]) + s(blob))
+                    if r.get("bad"):
+                        tosign += b"x"
+                    sig = raw_signer(pk)(tosign, r["sign_as"] if family(r["sign_as"]) == "rsa" else None)
+                    a.send(50, "u", "ssh-connection", "publickey", True, r["declared"], blob, sig)
+            except Exception:
+                if a.victim.is_active():
+                    raise
+                break
+
+            def verdict():
+                return [e["type"] for e in a.victim_msgs("out", (51, 52, 60, 1), since)]
+
+            if not pair.wait_for(lambda: verdict() or not a.victim.is_active(), 30):
+                ctx.inconclusive("server gave no answer to request %d of a multi-request session: %r" % (i, desc))
+                return
+            got = verdict()
+            if not a.victim_msgs("in", (50,), since):
+                break
+            ctx.count("server.multi_requests_judged")
+            if i > 0:
+                ctx.count("server.requests_after_a_prior_request")
+            if r["key"] in seen_keys:
+                ctx.count("server.requests_after_a_prior_request_for_the_same_key")
+            want = expected_grant(r, disabled)
+            granted = 52 in got or a.victim.is_authenticated()
+            history.append(dict(r, replies=got))
+            wit = dict(case=desc, request_index=i, history=history)
+            if granted and not want:
+                after = " after an earlier request on the same connection" if i > 0 else ""
+                name = r.get("sign_as")
+                if r["mode"] != "signed":
+                    sigtxt = "server sent USERAUTH_SUCCESS for a publickey request without a signature" + after
+                elif name != base_alg(r["declared"]):
+                    sigtxt = ("server sent USERAUTH_SUCCESS for publickey signature algorithm != declared algorithm (%s)%s"
+                              % (mechanism(r["declared"], name), after))
+                elif base_alg(r["declared"]) in disabled:
+                    sigtxt = "server sent USERAUTH_SUCCESS for a publickey algorithm it has disabled" + after
+                else:
+                    sigtxt = "server sent USERAUTH_SUCCESS for an invalid publickey request" + after
+                ctx.violation(sigtxt, "request %d (%s declared %s, signed as %s) was granted; disabled on the server: %s"
+                              % (i, r["key"], r["declared"], name, sorted(disabled)), wit)
+                return
+            if want:
+                if granted:
+                    ctx.count("server.multi_positive_controls_accepted")
+                else:
+                    ctx.inconclusive("multi-request positive control rejected: %r" % wit)
+                    return
+            elif r["mode"] == "signed":
+                ctx.count("server.multi_hostile_requests_rejected")
+            seen_keys.add(r["key"])
+    finally:
+        a.close()
+
+
 # ---- driver ---------------------------------------------------------------------------------------
 def run(ctx):
     rng = ctx.rng
@@ -477,6 +660,16 @@ def run(ctx):
             shape = ("direct", "query-first", "after-failure")[(i + rnd + ctx.seed) % 3]
             run_server_case(ctx, c, kex, shape, sample=nsamp["s"] < 2)
             nsamp["s"] += 1
+    ms = multi_sequences(ctx)
+    for i, (dis, seq) in enumerate(ms):
+        idx += 1
+        if not ctx.mine(idx):
+            continue
+        server_multi_case(ctx, dis, seq, CHEAP_KEX[(i + ctx.seed) % len(CHEAP_KEX)], sample=nsamp.setdefault("m", 0) < 1)
+        nsamp["m"] += 1
+    ctx.require("server.multi_request_sessions", 60)
+    ctx.require("server.requests_after_a_prior_request_for_the_same_key", 40)
+    ctx.require("server.multi_positive_controls_accepted", 10)
     ctx.require("client.replies_judged", 60)
     ctx.require("client.hostile_signatures_judged", 45)
     ctx.require("client.positive_controls_accepted", 10)
